@@ -1498,7 +1498,7 @@ pub fn c02() -> Check {
     Check {
         id: "C02",
         level: "exploration",
-        rule: "discrete-event simulation of n real instances (2..=8 quick, 2..=24 thorough), every datagram delayed by a seeded latency in [1us, probe_rtt/4), timers exactly on time, 5 join schedules, random fan-out 1..=4, max_transmissions 1..=10, periodic gossip/announce on or off, probe_period in {2.2,3,5} x probe_rtt, packet sizes from header+1 member to 1400, 5 codecs. Safety clause asserted after every call of every instance; discovery clause as bounded progress (4n+4 periods) for every pair related in at least one direction when joining ends (pairs related in neither direction depend on gossip luck and are only tallied). Distinct by (n, schedule, config, codec). Also probe_period 1.1 x rtt; 'long' runs of 300..620 periods (every wrapping counter goes round); 'feedfit': packets exactly large enough to feed the whole cluster with fixed-length identities, where every Feed must list every active member but the receiver (n up to 16 quick / 40 thorough); 'feedfit_var': the same with variable-length identities, statistics only.",
+        rule: "discrete-event simulation of n real instances (2..=8 quick, 2..=24 thorough), every datagram delayed by a seeded latency in [1us, probe_rtt/4), timers exactly on time, 5 join schedules, random fan-out 1..=4, max_transmissions 1..=10, periodic gossip/announce on or off, probe_period in {2.2,3,5} x probe_rtt, packet sizes from header+1 member to 1400, 5 codecs. Safety clause asserted after every call of every instance; discovery clause as bounded progress (4n+4 periods) for every pair related in at least one direction when joining ends (pairs related in neither direction depend on gossip luck and are only tallied). Distinct by (n, schedule, config, codec). Also probe_period 1.1 x rtt; 'long' runs of 300..620 periods (every wrapping counter goes round); 'feedfit': packets exactly large enough to feed the whole cluster with fixed-length identities, where every Feed must list every active member but the receiver (n up to 16 quick / 40 thorough); 'feedfit_var': the same with variable-length identities, statistics only. Two legal set_config calls per run. Rate rule (n <= 8, periodic announce every <= 2 periods): runs that started with unrelated pairs and have no full view after 4n+4 periods must stay below 22 % (unchanged 9-12 %).",
         assumptions: &["transport delivers every datagram with latency < probe_rtt/4 and the runtime fires timers exactly at their deadline (the simulator does)", "discovery bound 4n+4 periods instantiates the statement's 'linear in the cluster size'"],
         required: &["fault_free_runs", "runs_with_complete_relation", "sim_datagram/Ping", "sim_datagram/Feed"],
         workloads: vec![
@@ -1516,7 +1516,7 @@ pub fn c03() -> Check {
     Check {
         id: "C03",
         level: "fault_enumeration",
-        rule: "per configuration (n in 2..=7 quick / 2..=10 thorough, suspect_to_down_after 2..5 periods, seeds) a formed fault-free run is rebuilt deterministically and a fault is injected after a swept number of further events (24 slots covering more than one full probe rotation of every member): singletons, pairs and random subsets up to n-1 members crash or call leave_cluster. Oracle: every survivor that listed a failed member notifies MemberDown by t_fail+(2n+1)P+S2D, no survivor is ever declared Down, recipients of a leaver's farewell report it within one latency, the leaver sends no probe traffic afterwards. Distinct by (configuration, fault slot, subset). Latency below rtt/4 or below 0.9 rtt (indirect probes of live members then complete through ForwardedAck). 'leave_early': a newcomer leaves around the arrival of its own Feed. 'staged': n up to 14 (22 thorough), all but 2..4 members crash first and, once reported, one more crashes while those Down records are still held; bound for the second failure counted from the members alive before it.",
+        rule: "per configuration (n in 2..=7 quick / 2..=10 thorough, suspect_to_down_after 2..5 periods, seeds) a formed fault-free run is rebuilt deterministically and a fault is injected after a swept number of further events (24 slots covering more than one full probe rotation of every member): singletons, pairs and random subsets up to n-1 members crash or call leave_cluster. Oracle: every survivor that listed a failed member notifies MemberDown by t_fail+(2n+1)P+S2D, no survivor is ever declared Down, recipients of a leaver's farewell report it within one latency, the leaver sends no probe traffic afterwards. Distinct by (configuration, fault slot, subset). Latency below rtt/4 or below 0.9 rtt (indirect probes of live members then complete through ForwardedAck). 'leave_early': a newcomer leaves around the arrival of its own Feed. 'staged': n up to 14 (22 thorough), all but 2..4 members crash first and, once reported, one more crashes while those Down records are still held; bound for the second failure counted from the members alive before it. Half of the staged cases forget the first wave's Down records (remove_down_after = (2n+1)P+S2D+0..3P) before the second failure.",
         assumptions: &["latency < probe_rtt/4, timers on time; remove_down_after far beyond the horizon"],
         required: &["crash_faults", "leave_faults"],
         workloads: vec![
@@ -1533,7 +1533,7 @@ pub fn c04() -> Check {
     Check {
         id: "C04",
         level: "fault_enumeration",
-        rule: "inside the deterministic envelope (suspect_to_down_after >= (2n+1)P, max_transmissions >= max(10,2n^2), P = 3R, latency < R/4 or < 0.9R so that indirect-probe relays flow, remove_down_after far away) a formed run is rebuilt per fault and exactly one datagram of a window covering more than one full rotation of every member is dropped (32 slots per configuration, seeded offset inside the slot), n in 2..=6 quick / 2..=11 thorough, notify_down_members on/off, renewable or not. Oracle: no MemberDown/Defunct/Rejoin/Idle anywhere, no TurnUndead datagram at all, identities unchanged, everyone lists everyone as Alive again within 4n+2 periods. Non-trivial: a suspicion was raised or extra indirect probes ran. Distinct by (configuration, dropped index, kind). A third of the configurations run the periodic announce (Announce/Feed become drop candidates). 'realistic': outside the envelope (10..=14 members, suspicion timeout 8 periods, probe_period 1.5 x rtt, latency 0.2 x rtt, max_transmissions 4..10) single cases carry no verdict; the rate of runs ending with a live member declared Down must stay below 3 % (unchanged tree: 0.6-0.7 %), decided over the merged run.",
+        rule: "inside the deterministic envelope (suspect_to_down_after >= (2n+1)P, max_transmissions >= max(10,2n^2), P = 3R, latency < R/4 or < 0.9R so that indirect-probe relays flow, remove_down_after far away) a formed run is rebuilt per fault and exactly one datagram of a window covering more than one full rotation of every member is dropped (32 slots per configuration, seeded offset inside the slot), n in 2..=6 quick / 2..=11 thorough, notify_down_members on/off, renewable or not. Oracle: no MemberDown/Defunct/Rejoin/Idle anywhere, no TurnUndead datagram at all, identities unchanged, everyone lists everyone as Alive again within 4n+2 periods. Non-trivial: a suspicion was raised or extra indirect probes ran. Distinct by (configuration, dropped index, kind). A third of the configurations run the periodic announce (Announce/Feed become drop candidates). 'realistic': outside the envelope (10..=14 members, suspicion timeout 8 periods, probe_period 1.5 x rtt, latency 0.2 x rtt, max_transmissions 4..10) single cases carry no verdict; the rate of runs ending with a live member declared Down must stay below 3 % (unchanged tree: 0.6-0.7 %), decided over the merged run. A quarter of the configurations: fixed-length identities and max_packet_size = Ping header + count + one update (+0..2).",
         assumptions: &["the envelope makes SWIM's refutation race deterministic; outside it the property is probabilistic and carries no verdict"],
         required: &["single_loss_runs", "runs_with_suspicion_raised_and_refuted", "dropped/Ping", "dropped/Ack", "dropped/Feed", "dropped/Gossip"],
         workloads: vec![
